@@ -2558,14 +2558,24 @@ public:
   void loadActuals(const std::vector<std::unique_ptr<Expr>> &args, size_t parameterOffset,
                    const std::string &currentScope) {
     size_t parameterIndex = parameterOffset;
+    // The values saved by genCallActuals occupy consecutive frame locations
+    // from the current offset. Keep all of them allocated while the other
+    // actuals are generated, so that their temporaries do not overwrite a
+    // saved value that has not been loaded yet.
+    size_t savedOffset = currentFrame->getOffset();
+    for (auto &arg : args) {
+      if (containsCall(arg)) {
+        currentFrame->incOffset(1);
+      }
+    }
     for (auto &arg : args) {
       if (containsCall(arg)) {
         // For each actual expression containing one or more calls, load the
         // expression value saved to a temporary stack location and store it
         // to the actual parameter location.
         genLDAM(SP_OFFSET);
-        genLDAI_FB(currentFrame, -currentFrame->getOffset());
-        currentFrame->incOffset(1);
+        genLDAI_FB(currentFrame, -static_cast<int>(savedOffset));
+        savedOffset++;
         genLDBM(SP_OFFSET);
         genSTAI(parameterIndex);
       } else {
